@@ -56,10 +56,43 @@ class ObjModel:
         self._fg = {}
         self.inits = {i: self.norm(t) for i, t in (sm.inits or {}).items()}
         self.new_guards = self.fn_guards(sm.new) if sm.new is not None else []
+        # new() validates through a pass-through helper that can panic but whose panic condition is not a read comparison
+        # (match on an Ordering, a predicate): the constructor's accepted set is then not read, and guard comparisons are not decided
+        self.new_unread = None
+        if sm.new is not None:
+            for c in sm.new.calls():
+                if c.path and c.path in prog.pdb.bodies and self._passthrough(c.path):
+                    h = prog.func(c.path)
+                    if h.cfg.panics and not self.fn_guards(h, 1):
+                        self.new_unread = 'new() validates through %s, whose rejecting condition is not a read comparison' % short(c.path)
 
     # ------------------------------------------------------------------ normal forms
     def norm(self, t):
-        return fold(self.prog.inline(t, depth=3))
+        return fold(self._pass(fold(self.prog.inline(t, depth=3))))
+
+    def _passthrough(self, key):
+        """component -> parameter number for an in-crate helper every return value of which is a tuple of its own parameters
+        (a validation helper that hands its arguments back): whenever it returns, component i IS the argument"""
+        if not hasattr(self, '_pt'):
+            self._pt = {}
+        if key not in self._pt:
+            self._pt[key] = None
+            h = self.prog.func(key) if key in self.prog.pdb.bodies else None
+            rv = h.return_values() if h is not None else []
+            if rv and all(tag(r) == 'agg' and r[1] == 'tuple' and all(tag(c) == 'arg' for c in r[3]) for r in rv):
+                maps = [{i: c[1] for i, c in enumerate(r[3])} for r in rv]
+                if all(m == maps[0] for m in maps[1:]):
+                    self._pt[key] = maps[0]
+        return self._pt[key]
+
+    def _pass(self, t):
+        def f(n):
+            if tag(n) == 'field' and tag(n[1]) == 'call' and isinstance(n[2], int):
+                m = self._passthrough(n[1][1])
+                if m and n[2] in m and m[n[2]] - 1 < len(n[1][2]):
+                    return n[1][2][m[n[2]] - 1]
+            return n
+        return map_term(t, f)
 
     def clean(self, t):
         return unname(strip_sites(t))
@@ -111,6 +144,8 @@ class ObjModel:
         if h.body.local_ty(0) == '()':
             return True
         rv = h.return_values()
+        if self._passthrough(h.body.key):
+            return True
         return bool(rv) and all(tag(r) == 'arg' for r in rv) and len({r[1] for r in rv}) == 1
 
     # ------------------------------------------------------------------ effect of a mutator
